@@ -341,7 +341,7 @@ func c15Tickets(c *Ctx, p *Prog) {
 	if iv != nil {
 		t := p.newTermer()
 		for _, r := range returnsOf(iv) {
-			if got := t.Term(r.Results[0]); got != "((<ssTicket>.issuedAt+604800)>unix(now))" {
+			if got := t.Term(r.Results[0]); !termEq(got, "((<ssTicket>.issuedAt+604800)>unix(now))") {
 				bad = "isValid is " + got
 			}
 		}
@@ -613,7 +613,7 @@ func c15Handshake(c *Ctx, p *Prog) {
 		}
 	}
 	t := p.newTermer()
-	for _, rf := range p.CallsIn(ic, "io.ReadFull") {
+	for _, rf := range p.ReadFullsIn(ic) {
 		if got := t.Term(rf.Common().Args[0]); got != "hkdf-expand-sha256[prk=$1;info=\"\"]" {
 			bad = "key material comes from " + got
 		}
